@@ -70,6 +70,20 @@ func init() {
 	add("c11-repl-collect-swallow", "C11.repl", rjq, "    ]\n  catch\n    error(.error);", "    ]\n  catch\n    [];", "collect:_repl_slurp_eval/1")
 	add("c11-repl-orphan-handler", "C11.repl", rjq, ", slurp: \"_slurp\"", ", slurp: \"_repl_slurp\"", "slurp-target:_slurp/1")
 
+	// C11.handler
+	add("c11-handler-reraise", "C11.handler", "pkg/interp/init.jq", "def _cli_eval_on_expr_error:\n  ( if _is_object then", "def _cli_eval_on_expr_error:\n  ( if . == \"context canceled\" then error end\n  | if _is_object then", "total:_cli_eval_on_expr_error:_cli_eval_on_expr_error/0")
+	add("c11-handler-callee-raises", "C11.handler", "pkg/interp/internal.jq", "def _error_str($contexts): ([\"error\"] + $contexts + [.]) | join(\": \");", "def _error_str($contexts): if . == \"\" then error else ([\"error\"] + $contexts + [.]) | join(\": \") end;", "total:_cli_eval_on_expr_error:_error_str/1")
+	add("c11-handler-repl-halts", "C11.handler", rjq, "def _repl_on_expr_error:\n  ( if _eval_is_compile_error then", "def _repl_on_expr_error:\n  ( if . == \"eof\" then halt end\n  | if _eval_is_compile_error then", "total:_repl_on_expr_error:_repl_on_expr_error/0")
+
+	// C11.expr
+	const ojq = "pkg/interp/options.jq"
+	add("c11-expr-merge-left", "C11.expr", "pkg/interp/init.jq", "| . + _opt_eval($rest)", "| _opt_eval($rest) + .", "merge:_main")
+	add("c11-expr-arg-index", "C11.expr", ojq, "else $rest[0] // null", "else $rest[1] // null", "source:_opt_eval:arg")
+	add("c11-expr-file-trim", "C11.expr", ojq, "try (open | tobytes | tostring)\n            catch (\"\\($expr_file)", "try (open | tobytes | tostring | rtrimstr(\"\\n\"))\n            catch (\"\\($expr_file)", "source:_opt_eval:file")
+	add("c11-expr-late-transform", "C11.expr", ojq, "  | with_entries(select(.value != null))\n  );", "  | with_entries(select(.value != null))\n  | with_entries(.value |= if _is_string then ltrimstr(\"@\") end)\n  );", "after:_opt_eval:2")
+	add("c11-expr-options-default", "C11.expr", ojq, "  | .line_bytes |= (. // $display_bytes)\n", "  | .line_bytes |= (. // $display_bytes)\n  | .expr |= (. // \".\")\n", "after:options/1:")
+	add("c11-expr-other-key", "C11.expr", "pkg/interp/init.jq", "          | map(_cli_eval($opts.expr; $eval_opts))", "          | map(_cli_eval($opts.expr_file; $eval_opts))", "arg:_main:call1")
+
 	// C11.inputs
 	const ijq = "pkg/interp/init.jq"
 	add("c11-inputs-repl-drop-arm", "C11.inputs", ijq, "              elif $opts.string_input then inputs\n              elif $opts.slurp then [inputs]\n", "              elif $opts.slurp then [inputs]\n", "agree:_main:call1~call2:$opts.null_input=0,$opts.slurp=1,$opts.string_input=1")
